@@ -923,7 +923,15 @@ class QueryBuilder(Selectable, Term):  # type:ignore[misc]
             A copy of the query with the tables replaced.
         """
         self._from = [
-            new_table if table == current_table else table  # type:ignore[misc]
+            (
+                new_table
+                if table == current_table
+                else (
+                    table.replace_table(current_table, new_table)
+                    if isinstance(table, (QueryBuilder, _SetOperation))
+                    else table
+                )
+            )  # type:ignore[misc]
             for table in self._from
         ]
         if self._insert_table == current_table:
@@ -959,6 +967,32 @@ class QueryBuilder(Selectable, Term):  # type:ignore[misc]
             for orderby in self._orderbys
         ]
         self._joins = [join.replace_table(current_table, new_table) for join in self._joins]
+        self._updates = [
+            (
+                field.replace_table(current_table, new_table),
+                value.replace_table(current_table, new_table),
+            )
+            for field, value in self._updates
+        ]
+        self._on_conflict_fields = [
+            field.replace_table(current_table, new_table) if isinstance(field, Term) else field
+            for field in self._on_conflict_fields
+        ]
+        self._on_conflict_do_updates = [
+            (
+                field.replace_table(current_table, new_table),
+                value.replace_table(current_table, new_table) if value is not None else None,
+            )
+            for field, value in self._on_conflict_do_updates
+        ]
+        if self._on_conflict_wheres:
+            self._on_conflict_wheres = self._on_conflict_wheres.replace_table(
+                current_table, new_table
+            )
+        if self._on_conflict_do_update_wheres:
+            self._on_conflict_do_update_wheres = self._on_conflict_do_update_wheres.replace_table(
+                current_table, new_table
+            )
 
         if current_table in self._select_star_tables:
             self._select_star_tables.remove(current_table)
